@@ -16,7 +16,7 @@ import (
 
 func init() {
 	vc.Register(&vc.Check{ID: "C08", Level: "exploration", Run: run, Replay: replay, QuickSec: 170, ThoroSec: 1800,
-		Rule: "real Reader.ReadDocument against the independent, genuinely issued chip over a 13-dimensional configuration lattice (access control, password, PACE curve, suite, optional DG subset, CA arrangement, AA key type, large-file size, maxLe, chip Le cap, extended length, issuer trusted, SkipImages). Enumerated completely: every TWO-FACTOR slice (all value pairs of every two dimensions, the rest at the baseline), plus the complete {DG subset x CA x AA x SkipImages} and {file size x maxLe x cap x extended} slices (thorough adds {access x curve x suite x password}). Oracle from the chip's own truth: every returned file byte-identical to the chip's; inside the region the transport supports the read succeeds, every supported DG listed in the SOD is present (DG2/DG7 excepted with SkipImages), BAC/PACE reported as the chip completed them, the strongest chip-authentication mechanism by the library's precedence AA > PACE-CAM > CA is reported successful, PA success <=> issuer in the trust store. distinct_nontrivial = distinct configuration vectors read",
+		Rule: "real Reader.ReadDocument against the independent, genuinely issued chip over a 13-dimensional configuration lattice (access control, password, PACE curve, suite, optional DG subset, CA arrangement, AA key type, large-file size, maxLe, chip Le cap, extended length, issuer trusted, SkipImages). Enumerated completely: every TWO-FACTOR slice (all value pairs of every two dimensions, the rest at the baseline), plus the complete {DG subset x CA x AA x SkipImages} and {file size x maxLe x cap x extended} slices (thorough adds {access x curve x suite x password} and every THREE-factor slice over {first, baseline, middle, last} values). Oracle from the chip's own truth: every returned file byte-identical to the chip's; inside the region the transport supports the read succeeds, every supported DG listed in the SOD is present (DG2/DG7 excepted with SkipImages), BAC/PACE reported as the chip completed them, the strongest chip-authentication mechanism by the library's precedence AA > PACE-CAM > CA is reported successful, PA success <=> issuer in the trust store. distinct_nontrivial = distinct configuration vectors read",
 		Assume: []string{"required region: maxLe >= 128, extended length supported or maxLe <= 256, chip Le cap 0 or >= 128 (a rung of the 256/192/128 ladder), every chunk of every file starts at an offset <= 32767 (the 15-bit READ BINARY offset) and a file needs <= 990 chunks; outside it only 'exact or error' is demanded", "CA after a successful AA / PACE-CAM is skipped by design and not demanded"}})
 }
 
@@ -412,6 +412,39 @@ s4:
 						v := baseline()
 						v[0], v[2], v[3], v[1] = a, cu, su, pw
 						do(sec4, v)
+					}
+				}
+			}
+		}
+	}
+	if c.Thorough() {
+		sec5 := "three-factor slices over representative values"
+		rep := func(d dim) []int {
+			set := map[int]bool{0: true, d.Base: true, d.N - 1: true, d.N / 2: true}
+			var out []int
+			for v := 0; v < d.N; v++ {
+				if set[v] {
+					out = append(out, v)
+				}
+			}
+			return out
+		}
+		c.SecBound(sec5, "every triple of the 13 dimensions x {first, baseline, middle, last} value of each")
+		for i := 0; i < len(dims); i++ {
+			for j := i + 1; j < len(dims); j++ {
+				for k := j + 1; k < len(dims); k++ {
+					for _, a := range rep(dims[i]) {
+						for _, b := range rep(dims[j]) {
+							for _, cc := range rep(dims[k]) {
+								if c.Expired() {
+									c.SecNotExhaustive(sec5, fmt.Sprintf("deadline at triple (%s,%s,%s)", dims[i].Name, dims[j].Name, dims[k].Name))
+									return
+								}
+								v := baseline()
+								v[i], v[j], v[k] = a, b, cc
+								do(sec5, v)
+							}
+						}
 					}
 				}
 			}
